@@ -69,7 +69,7 @@ CHECKS = {
          "5/C14"),
  "C20": ("exploration",
          "recording-driver monitor: the psql and existing-sql backends run over a recording database/sql driver (injected through verif-tagged constructors); every statement and its bound arguments are captured and a PostgreSQL tokenizer compares the statement sent for a hostile client string with the one sent for a benign string (token skeleton, decoded literals, bound arguments)",
-         "All 45 entry points that take an id, label or name x 47 client strings are run completely. 23 call sites build SQL by string formatting and are listed as known findings (one per call site, keyed driver:function:argument:quote - a defect at the same site that needs no quote character has another key); the parameterised sites (AddVertex/AddEdge) hold, and any site not listed that changes token structure is reported.",
+         "All 45 entry points that take an id, label or name x 52 client strings are run completely. 23 call sites build SQL by string formatting and are listed as known findings (one per call site, keyed driver:function:argument:quote - a defect at the same site that needs no quote character has another key); the parameterised sites (AddVertex/AddEdge) hold, and any site not listed that changes token structure is reported.",
          "Trusted: the 180-line PostgreSQL tokenizer harness/model/sqltok.go (standard_conforming_strings on). No SQL server exists in the sandbox; canned empty result sets stand in for query answers.",
          "5/C20"),
  "C12": ("exploration",
